@@ -201,7 +201,7 @@ func (c *Ctx) funcRef(fn *ssa.Function) *Term {
 
 // define names an SSA value: v = def.
 func (f *frame) define(v ssa.Value, x Val) {
-	if x.T != nil && x.P == nil && x.Tuple == nil && termSize(x.T) > 6 {
+	if x.T != nil && x.P == nil && x.Tuple == nil && termSize(x.T) > 6 && isGround(x.T, nil) {
 		n := f.c.declConst(f.valName(v), x.T.Sort)
 		f.c.addHyp(Eq(n, x.T))
 		x.T = n
@@ -496,7 +496,7 @@ func (f *frame) run(pc0 *Term, st0 State, args []Val) (retPc *Term, results []Va
 			pc, st = f.enterLoop(li, b, pc, st)
 		}
 		pcn := pc
-		if !isTrue(pc) && !isFalse(pc) && termSize(pc) > 3 {
+		if !isTrue(pc) && !isFalse(pc) && termSize(pc) > 3 && isGround(pc, nil) {
 			pcn = c.declConst(fmt.Sprintf("pc.%s.%d.b%d", f.tag, f.depth, b.Index)+f.uniq(), BoolSort)
 			c.addHyp(Eq(pcn, pc))
 		}
